@@ -16,6 +16,8 @@ CORR = {
     "ltx_wal_encode": "Ltx/Snapshot.v wal_pgnos + enc_run vs the REAL db.go writeLTXFromWAL (hook WriteLTXFromWALVerif) on a grid of "
                       "(previous commit, commit, page map) around the lock page",
     "ltx_db_encode": "Ltx/Snapshot.v db_pgnos + enc_run vs the REAL db.go writeLTXFromDB (hook WriteLTXFromDBVerif) for commits around the lock page",
+    "ltx_db_content": "Ltx/Snapshot.v db_content (content source of every page frame: database file at (pgno-1)*pageSize, or the WAL frame "
+                      "of the page map) vs the bytes the REAL db.go writeLTXFromDB encoded from a database file and WAL made of self-describing pages",
 }
 
 
@@ -73,14 +75,21 @@ def run(v):
                 "eight page sizes x previous commit lockPgno-3..+2 x growth -2,0,1,2,3,6 x page map {no growth page, "
                 "every growth page, random part + older pages, lock page in the WAL}: emitted page list = wal_pgnos, "
                 "status = the encoder's verdict (ltx_wal_encode); the REAL writeLTXFromDB for commits lockPgno..+3 "
-                "(ltx_db_encode); (c) real SQLite databases whose file and header size are extended past 1 GiB with a "
+                "(ltx_db_encode) and, on a database file and WAL made of self-describing, mutually different pages on both "
+                "sides of the lock page (six file pages beyond it; page maps empty / WAL pages on both sides), WHERE the "
+                "encoded bytes of each page came from (ltx_db_content; 65536 and 4096 in quick, all eight in thorough); "
+                "(c) real SQLite databases whose file and header size are extended past 1 GiB with a "
                 "hole, page size 65536 in quick: boundary histories with the FIRST synced size at lockPgno-2, lockPgno-1 "
                 "(exactly 1 GiB), lockPgno, lockPgno+1, each followed by transactions growing the database by 1, 2 and 5 "
                 "pages (one root page per CREATE TABLE), ONE incremental sync per transaction (the pairs actually "
                 "reached are listed under sparse_databases as 'real incremental syncs: ...'; SQLite writes a frame for "
                 "every page it allocates, so growth pages without frames are reached only through (b2)); one scenario "
                 "(previous size exactly 1 GiB, growth across the lock page) continues through Replica.Sync, DB.Snapshot, "
-                "DB.Compact(1) twice, DB.Close and Replica.Restore; further scenarios run while the quick tier's 30 s "
+                "a TRUNCATE checkpoint (so the pages beyond the lock page are in the database FILE and the next sync is a "
+                "snapshotting one with MinTXID > 1), DB.Snapshot, DB.Compact(1) twice, DB.Close and Replica.Restore; "
+                "every sparse database also carries self-describing pages in its FILE from lockPgno-3 up to its first "
+                "size, and every full encoding (first sync, in-chain snapshotting sync, level 9, level-1 from TXID 1) is "
+                "compared content-wise at those pages (one mandatory history starts 4 pages past the lock page); further scenarios run while the quick tier's 30 s "
                 "budget lasts (skipped ones are listed); thorough: all of it for all eight sizes; "
                 "observables: header and page-number runs of EVERY LTX file in the replica (spec oracle ltx_file_ok: no "
                 "lock page, growth-closed, full files exactly [1..commit] minus lock; model entries ltx_snapshot_pgnos / "
@@ -115,7 +124,7 @@ def run(v):
                     "implementation and model disagree on %d cases (entry %s first)" % (len(other), m["entry"]),
                     {"theorem_or_correspondence": "correspondence " + CORR.get(m["entry"], m["entry"]),
                      "case_lines": C.case_with_defs(cases, m["line"]), "model_says": m["model"]},
-                    found_input=m["entry"] in ("ltx_snapshot_pgnos", "ltx_wal_pgnos", "ltx_wal_encode", "ltx_db_encode") and not spec_bad)
+                    found_input=m["entry"] in ("ltx_snapshot_pgnos", "ltx_wal_pgnos", "ltx_wal_encode", "ltx_db_encode", "ltx_db_content") and not spec_bad)
 
 
 def replay(v, path):
